@@ -249,6 +249,25 @@ def unary_ops():
 
     for where in ("last-child", "first-child", "root-property"):
         ops[f"failing-load-{where}"] = failing_load(where)
+
+    def load_twin_under_next_suffix(t, gap=0):
+        """A document written elsewhere: a copy of the first leaf of the tree under an id of its digest that is free right now
+        (ids of twins are <digest>, <digest>_1, <digest>_2, ...).  A freshly built twin (kept alive) shows which suffix the
+        library hands out at this moment; the document uses the one after it (gap=0) or leaves one free in between (gap=1).
+        The loaded node stays alive; nodes created later must steer clear of its id."""
+        leaf = next((i.node for i in t.dfs() if not list(i.node.get_child_nodes())), t)
+        d = copy.deepcopy(leaf.as_dict())
+        probe = dataclasses.replace(leaf)
+        KEEP.append(probe)
+        base, _, suffix = probe.id.partition("_")
+        k = int(suffix or 0) + 1 + gap
+        while f"{base}_{k}" in NODE_REGISTRY:
+            k += 1
+        d["id"] = f"{base}_{k}"
+        return type(leaf).as_obj(d)
+
+    ops["load-twin-under-next-suffix"] = load_twin_under_next_suffix
+    ops["load-twin-under-later-suffix"] = lambda t: load_twin_under_next_suffix(t, gap=1)   # leaves one suffix free in between
     ops["hash-repr-str"] = lambda t: (hash(t), repr(t), str(t), t == t, t != t)
 
     def rich_(t):
@@ -311,7 +330,11 @@ def check_part1(rec):
                     rec.violation(f"C10|{what}-allowed", {"class": type(n).__name__, "field": f.name}, f"{what}({type(n).__name__}.{f.name}) did not raise")
 
 
+KEEP: list = []   # objects an operation wants to stay alive until the end of the history
+
+
 def run_history(rec, u, b, hist):
+    KEEP.clear()
     pool = build_pool()
     case = {"history": [[name, list(args)] for name, args in hist]}
     rec.count("states")
